@@ -1165,3 +1165,40 @@ benign_patch("refactor_bloom_min_max_assignments", "benign/set2_refactor15.diff"
 
 mut("cache_id_read_then_write", ["C13", "C05"], "OWN-10", patch="cache_id_read_then_write.diff",
     note="tables opened concurrently can share a block-cache partition id and serve each other's blocks")
+
+# ---- 35 more, aimed at the functions the rules anchor on (sets 3 and 4)
+benign_patch("refactor_s3_01", "benign/set3_refactor01.diff", note='DB::open: if let Err {log; return Err} -> .map_err(..)?')
+benign_patch("refactor_s3_02", "benign/set3_refactor02.diff", note='DB::recover: mut local dropped; named locals')
+benign_patch("refactor_s3_03", "benign/set3_refactor03.diff", note='DB::recover_unrecorded_logs: nested match flattened into Ok(Pattern) arms')
+benign_patch("refactor_s3_04", "benign/set3_refactor04.diff", note='DB::recover_wal_records: while !is_eof -> loop { if is_eof { break } }')
+benign_patch("refactor_s3_05", "benign/set3_refactor05.diff", note='DB::destroy_database: lock acquisition extracted into a private helper')
+benign_patch("refactor_s3_06", "benign/set3_refactor06.diff", note='Drop for DB: local for the WAL pointer, narrower unsafe block')
+benign_patch("refactor_s3_07", "benign/set3_refactor07.diff", note='DB::set_current_file: is_err()/err().unwrap() -> if let Err(e)')
+benign_patch("refactor_s3_08", "benign/set3_refactor08.diff", note='DB::build_group_commit_batch: iter()+next() -> iter().skip(1)')
+benign_patch("refactor_s3_09", "benign/set3_refactor09.diff", note='DB::apply_batch_to_memtable: map_or(vec![], ..) -> match')
+benign_patch("refactor_s3_10", "benign/set3_refactor10.diff", note='DB::convert_memtable_to_file: let mut level + if -> immutable if/else; if let -> match')
+benign_patch("refactor_s3_11", "benign/set3_refactor11.diff", note='DB::build_table_from_iterator: duplicated remove_file extracted into helper remove_table_file')
+benign_patch("refactor_s3_12", "benign/set3_refactor12.diff", note='DB::new_iterator: is_some()/as_ref().unwrap() -> if let Some')
+benign_patch("refactor_s3_13", "benign/set3_refactor13.diff", note='DB::get_descriptor: early return Err -> if/else expression')
+benign_patch("refactor_s3_14", "benign/set3_refactor14.diff", note='DB::force_level_compaction: is_some() && ptr_eq(unwrap()) -> match into a named bool')
+benign_patch("refactor_s3_15", "benign/set3_refactor15.diff", note='DB::should_schedule_compaction: De Morgan on the three-way condition')
+benign_patch("refactor_s4_01", "benign/set4_refactor01.diff", note='compaction_task: early return -> if/else tail expression')
+benign_patch("refactor_s4_02", "benign/set4_refactor02.diff", note='coordinate_compaction: is_some()/unwrap() -> if let Some + local')
+benign_patch("refactor_s4_03", "benign/set4_refactor03.diff", note='compact_tables merge loop: while a && !b -> loop/break (De Morgan)')
+benign_patch("refactor_s4_04", "benign/set4_refactor04.diff", note='compact_tables drop logic: local smallest_snapshot for a repeated getter')
+benign_patch("refactor_s4_05", "benign/set4_refactor05.diff", note='finish_compaction_output_file: let mut + nested if let -> one match')
+benign_patch("refactor_s4_06", "benign/set4_refactor06.diff", note='add_boundary_inputs: is_none/unwrap -> match; loop/break -> while let')
+benign_patch("refactor_s4_07", "benign/set4_refactor07.diff", note='is_base_level_for_key: operand swap with flipped operators')
+benign_patch("refactor_s4_08", "benign/set4_refactor08.diff", note='log_and_apply: if let Err {log; return Err} -> .map_err(..)?')
+benign_patch("refactor_s4_09", "benign/set4_refactor09.diff", note='persist_changes: ? spelled out')
+benign_patch("refactor_s4_10", "benign/set4_refactor10.diff", note='write_snapshot: index loop + is_some/unwrap -> enumerate + if let')
+benign_patch("refactor_s4_11", "benign/set4_refactor11.diff", note='get_overlapping_compaction_inputs: empty if/else -> negated condition')
+benign_patch("refactor_s4_12", "benign/set4_refactor12.diff", note='record_read_sample: early return -> short-circuit && expression')
+benign_patch("refactor_s4_13", "benign/set4_refactor13.diff", note='LogReader::read_record: match on error kind -> if == / return')
+benign_patch("refactor_s4_14", "benign/set4_refactor14.diff", note='LogWriter::emit_block: log messages reworded')
+benign_patch("refactor_s4_15", "benign/set4_refactor15.diff", note='Table::get: is_none/unwrap -> match; is_some && .. -> nested if let')
+benign_patch("refactor_s4_16", "benign/set4_refactor16.diff", note='TwoLevelIterator: data-block positioning extracted into helper seek_data_block_to_first')
+benign_patch("refactor_s4_17", "benign/set4_refactor17.diff", note='MergingIterator::next/prev: trivial step helpers inlined and removed')
+benign_patch("refactor_s4_18", "benign/set4_refactor18.diff", note='DatabaseIterator::next: duplicated block hoisted out of both branches')
+benign_patch("refactor_s4_19", "benign/set4_refactor19.diff", note='FilterBlockReader::key_may_match: else + trailing true -> early return, match as tail')
+benign_patch("refactor_s4_20", "benign/set4_refactor20.diff", note='lock_file (both disk file systems): shared private fn create_and_lock_file')
